@@ -349,8 +349,10 @@ Definition opt_ok {A} (f : A -> bool) (o : option A) : bool :=
   match o with Some a => f a | None => true end.
 Definition is_some {A} (o : option A) : bool := match o with Some _ => true | None => false end.
 
+Definition no_props (ps : list sprop) : bool := match ps with [] => true | _ => false end.
+
 Definition will_ok (lvl : N) (w : swill) : bool :=
-  (if v5 lvl then props_ok XWill (will_props w) else match will_props w with [] => true | _ => false end)
+  (if v5 lvl then props_ok XWill (will_props w) else no_props (will_props w))
   && str_ok (will_topic w) && bin_ok (will_payload w) && (will_qos w <=? 2).
 
 Definition filter_ok (version : N) (f : sfilter) : bool :=
@@ -359,7 +361,6 @@ Definition filter_ok (version : N) (f : sfilter) : bool :=
   && (if v5 version then f_retain_handling f <=? 2                             (* [MQTT-3.8.3-5] *)
       else negb (f_no_local f) && negb (f_retain_as_published f) && (f_retain_handling f =? 0)).
 
-Definition no_props (ps : list sprop) : bool := match ps with [] => true | _ => false end.
 Definition props_for (version : N) (x : pctx) (ps : list sprop) : bool :=
   if v5 version then props_ok x ps else no_props ps.
 
